@@ -239,7 +239,7 @@ func main() {
 	coqBudget := 4800
 	if thorough {
 		ncanon, nmut, nrand = 40000, 6, 60000
-		coqBudget = 60000
+		coqBudget = 30000
 	}
 	var canon [][]byte
 	for i := 0; i < ncanon; i++ {
